@@ -16,11 +16,11 @@ THEOREMS_C21 = [P21 + n for n in ("C21_add_sound", "C21_add_closed", "C21_sub_so
                                 "overflow_false", "cd_add", "cd_sub", "lastMember_facts", "wrappedCard_nat")]
 TESTS_C21 = [P21 + "test_add_example"]
 THEOREMS_C22 = [P22 + n for n in ("C22_top_mem", "C22_new_mem", "C22_pseudo_join_sup", "C22_lub_sup", "C22_union_sup",
-                                  "C22_members_exact", "C22_cardinality_exact", "C22_solution_exact", "C22_eval_exact", "C22_min_max_bound", "C22_min_exact", "C22_signed_min_max_bound",
+                                  "C22_members_exact", "C22_cardinality_exact", "C22_solution_exact", "C22_eval_exact", "C22_min_max_bound", "C22_min_exact", "C22_max_exact_aligned", "C22_signed_min_max_bound",
                                   "widen_unsound", "widen_wrap_unsound", "widen_offset_unsound",
                                   "meet_unaligned_unsound", "max_unaligned_wrong")] + \
                [V + n for n in ("pseudoJoin_sup", "pseudoJoin_WF", "lub_sup", "union_sup", "contain_abs", "overlap_abs", "disjoint_abs",
                                 "isSurrounded_true", "isSurrounded_false", "reduceJoin_sup", "renorm_mem",
                                 "mem_members", "members_nodup", "cardinality_exact", "solution_exact", "multiMeet_int",
-                                "eval_exact", "evalLoop_spec", "min_le", "le_max", "smin_le", "le_smax", "min_attained", "signedBounds_spec", "unsignedBounds_spec")]
+                                "eval_exact", "evalLoop_spec", "min_le", "le_max", "smin_le", "le_smax", "min_attained", "max_attained", "mem_ub", "signedBounds_spec", "unsignedBounds_spec")]
 TESTS_C22 = [P22 + "test_join_example"]
